@@ -158,7 +158,7 @@ ConservationTags(P, e, Q) ==
 Step(P, e, Q) ==
   ConservationTags(P, e, Q) \cup
   (IF e.r.panic THEN {<<"C17", "wallet-operation-panicked:" \o e.ev>>} ELSE {})
-  \cup (CASE e.ev \in {"send", "sendlocked"} -> SendStep(P, e, Q)
+  \cup (CASE e.ev \in {"send", "sendlocked", "sendhtlc"} -> SendStep(P, e, Q)
           [] e.ev = "receive" -> ReceiveStep(P, e, Q)
           [] e.ev = "mint" -> MintStep(P, e, Q)
           [] e.ev = "restore" -> RestoreStep(P, e, Q)
